@@ -1,8 +1,8 @@
 (* C05 — Operations on quantized tensors equal the same operations on dequantized values.
    The per-op implementations are modelled by hand (Model/QOps.v); TieOps proves that the registered
    ops and the fingerprint of every implementation are those the model was written against. *)
-From Coq Require Import String List ZArith Bool.
-From QV Require Import Lib.Res Lib.Tensor Lib.ND Lib.Num Lib.QTensor Model.QOps.
+From Coq Require Import String List ZArith Bool Reals.
+From QV Require Import Lib.Res Lib.Tensor Lib.ND Lib.Num Lib.QTensor Model.QOps Proofs.RealNum Proofs.QOpsReal.
 From QD Require Import GenOps TieOps.
 Import ListNotations.
 Open Scope string_scope.
@@ -32,3 +32,20 @@ Print Assumptions C05_movers.
 
 Example C05_classes : class_of "split" = Some CMove /\ class_of "mul" = Some CRescale /\ class_of "_softmax" = Some CRequant.
 Proof. repeat split. Qed.
+
+(* arithmetic classes, in exact arithmetic: rescale (mul / div by a scalar touch the scale only) and sign (neg, relu
+   act on the codes) equal the float operation on the dequantized value; relu needs a non-negative scale, and the
+   statement is refuted for a negative one (known finding F25) *)
+Theorem C05_rescale_mul_exact : forall (s k : R) (data : tensor R), deqR (k * s) data = t_map (Rmult k) (deqR s data).
+Proof. exact rescale_mul_exact. Qed.
+Theorem C05_rescale_div_exact : forall (s k : R) (data : tensor R), k <> 0%R -> deqR (s / k) data = t_map (fun y => (y / k)%R) (deqR s data).
+Proof. exact rescale_div_exact. Qed.
+Theorem C05_sign_neg_exact : forall (s : R) (data : tensor R), deqR s (t_map Ropp data) = t_map Ropp (deqR s data).
+Proof. exact sign_neg_exact. Qed.
+Theorem C05_sign_relu_exact : forall (s : R) (data : tensor R), (0 <= s)%R ->
+  deqR s (t_map (fun d => Rmax d 0) data) = t_map (fun y => Rmax y 0) (deqR s data).
+Proof. exact sign_relu_exact. Qed.
+Theorem C05_relu_negative_scale_refuted : exists (s : R) (data : tensor R), (s < 0)%R /\
+  deqR s (t_map (fun d => Rmax d 0) data) <> t_map (fun y => Rmax y 0) (deqR s data).
+Proof. exact sign_relu_negative_scale_refuted. Qed.
+Print Assumptions C05_sign_relu_exact.
